@@ -678,11 +678,13 @@ nni_aio_expire_loop(void *arg)
 		nng_err  rv;
 		nni_time next;
 
-		next = q->eq_next;
-		now  = nni_clock();
 #ifdef NNG_VERIF
+		// counted before the clock is read: a scan counted after a
+		// clock change is guaranteed to see the new time
 		nni_verif_expire_scan_inc();
 #endif
+		next = q->eq_next;
+		now  = nni_clock();
 
 		// Each time we wake up, we scan the entire list of elements.
 		// We scan forward, moving up to NNI_EXPIRE_Q_SIZE elements
